@@ -37,10 +37,11 @@ def mk_cl():
     def construct(s, port, ev):
       s.ev, s.port = ev, port
       s.now_ready = True
-      s.got = []
+      s.got = []; s.kept = []
 
     @non_blocking(lambda s: s.now_ready)
     def recv(s, msg):
+      s.kept.append((msg, msg.clone()))          # the object as handed over, and its value at that moment
       msg = msg.clone()        # adapters hand over the live signal object
       s.got.append(msg)
       s.ev.append(("rsp", s.port, msg))
